@@ -755,7 +755,11 @@ static dt_yd_t
 __yd_add_d(dt_yd_t d, int n)
 {
 /* add N days to D */
-	signed int tgtd = d.d + n + (n < 0 && !d.d);
+	signed int tgtd;
+
+	/* a year step may have left a day 366 that doesn't exist */
+	d = __yd_fixup(d);
+	tgtd = d.d + n + (n < 0 && !d.d);
 
 	/* fixup the day */
 	return __yd_fixup_d(d.y, tgtd);
@@ -768,6 +772,8 @@ __yd_add_b(dt_yd_t d, int n)
 	dt_dow_t wd;
 	signed int tgtd;
 
+	/* a year step may have left a day 366 that doesn't exist */
+	d = __yd_fixup(d);
 	d.d ^= n < 0 && !d.d;
 	wd = __yd_get_wday(d);
 	tgtd = d.d + __get_d_equiv(wd, n);
